@@ -231,12 +231,34 @@ pub fn vx_funded_slots(c: &VxChannelsRO, txid: Txid, tx: &Transaction) -> (r: Ve
 // `prev_outs.iter().map(|o| o.value.to_sat()).collect::<Vec<_>>()`
 #[verifier::external_body]
 pub fn vx_values_sat(p: &[TxOut]) -> (r: Vec<u64>) ensures r@ == values_of(p@) { unimplemented!() }
-// tx.weight() plus the witness sizes of the inputs the node signs (the `for (idx, uck) in uniclosekeys.iter().enumerate()`
-// loop): a positive lower bound of the final weight; its exact value is not specified here
+// ---- the weight lower bound of check_onchain_tx (the `for (idx, uck) in uniclosekeys.iter().enumerate()` loop, now on the
+// real body): tx.weight() plus, for every input whose previous output has a script type the node signs for, the size of the
+// witness the node will add (77 weight units + the unilateral-close witness stack, or a 33-byte key); an input with an
+// unrecognised script - one the node does NOT sign - adds nothing.  An over-estimate would make a fee above the maximum rate
+// look acceptable, so the contract pins the value exactly.
+pub uninterp spec fn tx_weight(tx: Transaction) -> nat;
 #[verifier::external_body]
-pub fn vx_weight_lower_bound(tx: &Transaction, uniclosekeys: &[Option<(SecretKey, Vec<Vec<u8>>)>], prev_outs: &[TxOut]) -> (r: usize)
-    ensures r > 0
-{ unimplemented!() }
+pub fn vx_tx_weight(tx: &Transaction) -> (r: usize) ensures r == tx_weight(*tx), 0 < r < 0x1_0000_0000 { unimplemented!() }   // tx.weight().to_wu() as usize (a transaction has positive weight below 4 * 2^24 ... 2^32)
+//@type vls-core/src/node.rs :: SpendType derive=Clone,Copy,PartialEq
+pub uninterp spec fn spend_type_of(s: ScriptBuf) -> SpendType;
+impl SpendType {
+    #[verifier::external_body]
+    pub fn from_script_pubkey(script: &ScriptBuf) -> (r: SpendType) ensures r == spend_type_of(*script) { unimplemented!() }
+}
+// `stack.iter().map(|v| 1 + v.len()).sum()`: one length byte per element plus the element
+pub open spec fn stack_wit_len(stack: Seq<Vec<u8>>) -> nat decreases stack.len() {
+    if stack.len() == 0 { 0 } else { stack_wit_len(stack.drop_last()) + 1 + stack.last()@.len() }
+}
+pub open spec fn wit_len_of(uck: Option<(SecretKey, Vec<Vec<u8>>)>) -> nat {
+    match uck { Some(ks) => stack_wit_len(ks.1@), None => 33 }
+}
+// `match uck { Some((_key, stack)) => stack.iter().map(|v| 1 + v.len()).sum(), None => 33 }` (iterator sum: std semantics)
+#[verifier::external_body]
+pub fn vx_wit_len(uck: &Option<(SecretKey, Vec<Vec<u8>>)>) -> (r: usize) ensures r == wit_len_of(*uck), r < 0x1_0000_0000 { unimplemented!() }
+pub open spec fn weight_lb(tx: Transaction, ucks: Seq<Option<(SecretKey, Vec<Vec<u8>>)>>, prev: Seq<TxOut>, k: int) -> nat decreases k {
+    if k <= 0 { tx_weight(tx) }
+    else { weight_lb(tx, ucks, prev, k - 1) + (if spend_type_of(prev[k - 1].script_pubkey) is Invalid { 0nat } else { 77 + wit_len_of(ucks[k - 1]) }) }
+}
 impl Transaction {
     #[verifier::external_body]
     pub fn compute_txid(&self) -> (r: Txid) ensures r == txid_of(*self) { unimplemented!() }
@@ -279,8 +301,14 @@ impl VxNodeOn {
         opaths@.len() == tx.output@.len(),                       // indexing panics otherwise (abort)
         vc_wf(old(self).fee_velocity_control),
         sum_u64(values_of(prev_outs@)) <= 0x40_0000_0000_0000,   // input range: below 2^54 sat (the supply is below 2^51)
+        uniclosekeys@.len() < 0x1_0000,                          // input range: fewer than 2^16 inputs
     ensures
         final(self).wallet == old(self).wallet, final(self).channels == old(self).channels,
+        // the weight the fee rate is judged against is the transaction's weight plus the witnesses of the inputs the node
+        // signs - an input with an unrecognised script adds nothing
+        r.is_ok() && c08_strict() ==> exists|nb: u64, now: u64|
+            #[trigger] Self::node_check_ok(*old(self), *final(self), *tx, segwit_flags@, prev_outs@, opaths@, nb,
+                weight_lb(*tx, uniclosekeys@, prev_outs@, uniclosekeys@.len() as int) as usize, now),                    //[C08.node.fee-rate-against-exact-weight-lower-bound]
         // Ok under a non-permissive policy: the validator accepted the transaction against the channels found by funding
         // outpoint, and the value leaving the node was counted by (and fits) the fee velocity control
         r.is_ok() && c08_strict() ==> exists|nb: u64, w: usize, now: u64|
@@ -289,11 +317,20 @@ impl VxNodeOn {
         proof {
             if c08_strict() {
                 assert(Self::node_check_ok(*old(self), *self, *tx, segwit_flags@, prev_outs@, opaths@, non_beneficial_sat, weight_lower_bound, now));
+                assert(weight_lower_bound == weight_lb(*tx, uniclosekeys@, prev_outs@, uniclosekeys@.len() as int) as usize);
             }
         }
 //@sub /(?s)let channels: Vec<Option<VxSlot>> = \(0\.\.tx\.output\.len\(\)\)\s*\.map\(\|ndx\| \{.*?\}\)\s*\.collect\(\);/ => let channels: Vec<Option<VxSlot>> = vx_funded_slots(&channels_lock, txid, tx);
 //@sub /let channels_lock = self\.get_channels\(\);/ => let channels_lock = &self.channels;
-//@sub /(?s)let mut weight_lower_bound = tx\.weight\(\)\.to_wu\(\) as usize;\s*for \(idx, uck\) in uniclosekeys\.iter\(\)\.enumerate\(\) \{.*?\n        \}\n/ => let weight_lower_bound = vx_weight_lower_bound(tx, uniclosekeys, prev_outs);\n
+//@sub /tx\.weight\(\)\.to_wu\(\) as usize/ => vx_tx_weight(tx)
+//@sub /for \(idx, uck\) in uniclosekeys\.iter\(\)\.enumerate\(\) \{/ => for idx in 0..uniclosekeys.len() { let uck = vx_index(uniclosekeys, idx);
+//@sub /&prev_outs\[idx\]\.script_pubkey/ => &vx_index(prev_outs, idx).script_pubkey
+//@sub /(?s)match uck \{\s*Some\(\(_key, stack\)\) => stack\.iter\(\)\.map\(\|v\| 1 \+ v\.len\(\)\)\.sum\(\),\s*None => 33,\s*\}/ => vx_wit_len(uck)
+//@loop 1 iter=itw
+            invariant
+                itw.snapshot.end == uniclosekeys@.len(), uniclosekeys@.len() < 0x1_0000,
+                weight_lower_bound == weight_lb(*tx, uniclosekeys@, prev_outs@, itw.index@ as int),
+                weight_lower_bound <= 0x1_0000_0000 + itw.index@ * 0x2_0000_0000, weight_lower_bound >= tx_weight(*tx), tx_weight(*tx) > 0,
 //@sub /let values_sat = prev_outs\.iter\(\)\.map\(\|o\| o\.value\.to_sat\(\)\)\.collect::<Vec<_>>\(\);/ => let values_sat = vx_values_sat(prev_outs);
 //@sub /validator\.validate_onchain_tx\(\s*self,/ => validator.validate_onchain_tx(&self.wallet,
 //@sub /drop\(channels_lock\);/ => 
